@@ -165,7 +165,23 @@ func TestVerif_C18_RoundTrip(t *testing.T) {
 		var sizes []int
 		var stream bytes.Buffer
 		w := v.W(&stream)
+		failedWrites := 0
 		for i := 0; i < n; i++ {
+			// now and then the application hands the writer a message that cannot be encoded (a string field that is no
+			// valid UTF-8): that write reports an error and leaves nothing on the stream
+			if rapid.IntRange(0, 7).Draw(rt, "unencodable") == 0 {
+				bad := &protocoltypes.AccountVerifiedCredentialRegistered{Issuer: "\xff\xfe issuer", Identifier: "id"}
+				var err error
+				if useMT {
+					err = w.WriteMsg(mtMsg{bad})
+				} else {
+					err = w.WriteMsg(bad)
+				}
+				if err == nil {
+					rt.Fatalf("harness: a message with an invalid string was encoded")
+				}
+				failedWrites++
+			}
 			m := c18Message(rt, limit)
 			msgs = append(msgs, m)
 			sizes = append(sizes, proto.Size(m))
@@ -243,7 +259,7 @@ func TestVerif_C18_RoundTrip(t *testing.T) {
 		acct.Case(nt, fmt.Sprintf("%s|%d|%v|%s|%v|%v", v.Name, limit, sizes, rkind, useMT, reuse), func() any {
 			return map[string]any{"kind": "roundtrip", "variant": v.Name, "limit": limit, "frame_sizes": sizes, "reader": rkind, "marshalTo": useMT, "over_limit_at": overAt}
 		}, "roundtrip", "roundtrip/"+v.Name, lbl(overAt > 0, "roundtrip/over-limit-frame-not-first"), lbl(overAt == 0, "roundtrip/over-limit-frame-first"),
-			lbl(multi, "roundtrip/multi-frame-chunked"), lbl(useMT, "roundtrip/marshalTo-path"), lbl(reusedAfterLonger, "roundtrip/destination-reused-for-a-shorter-frame"))
+			lbl(multi, "roundtrip/multi-frame-chunked"), lbl(useMT, "roundtrip/marshalTo-path"), lbl(reusedAfterLonger, "roundtrip/destination-reused-for-a-shorter-frame"), lbl(failedWrites > 0 && n > 0, "roundtrip/failed-write-between-frames"))
 	})
 }
 
